@@ -36,6 +36,64 @@ type acctConn struct {
 	id       int
 	closes   atomic.Int32
 	returned atomic.Int32
+	// shape, if set, is what is handed to the listener in place of the struct pointer (see shapeConn)
+	shape *shapeConn
+}
+
+// shapeConn is a connection of another Go shape: a pointer to a named slice that is still nil (a connection
+// that records its events in itself and has not seen one yet). It is a non-nil net.Conn like any other; the
+// accounting lives in the acctConn it belongs to.
+type shapeConn []string
+
+var shapeOwners sync.Map // *shapeConn -> *acctConn
+
+func (c *shapeConn) owner() *acctConn {
+	v, _ := shapeOwners.Load(c)
+	ac, _ := v.(*acctConn)
+	return ac
+}
+func (c *shapeConn) Read([]byte) (int, error)    { return 0, errors.New("acct") }
+func (c *shapeConn) Write(b []byte) (int, error) { return len(b), nil }
+func (c *shapeConn) Close() error {
+	if ac := c.owner(); ac != nil {
+		ac.closes.Add(1)
+	}
+	return nil
+}
+func (c *shapeConn) LocalAddr() net.Addr              { return muxAddr{} }
+func (c *shapeConn) RemoteAddr() net.Addr             { return muxAddr{} }
+func (c *shapeConn) SetDeadline(time.Time) error      { return nil }
+func (c *shapeConn) SetReadDeadline(time.Time) error  { return nil }
+func (c *shapeConn) SetWriteDeadline(time.Time) error { return nil }
+
+// newAcctConn: every fifth connection goes to the listener in the other shape
+func newAcctConn(id int) *acctConn {
+	ac := &acctConn{id: id}
+	if id%5 == 3 {
+		ac.shape = new(shapeConn)
+		shapeOwners.Store(ac.shape, ac)
+	}
+	return ac
+}
+
+// wire is the value handed to the listener for this connection
+func (c *acctConn) wire() net.Conn {
+	if c.shape != nil {
+		return c.shape
+	}
+	return c
+}
+
+// acctOf maps what the listener returned back to the accounting object
+func acctOf(cn net.Conn) (*acctConn, bool) {
+	switch v := cn.(type) {
+	case *acctConn:
+		return v, v != nil
+	case *shapeConn:
+		ac := v.owner()
+		return ac, ac != nil
+	}
+	return nil, false
 }
 
 func (c *acctConn) Read([]byte) (int, error)         { return 0, errors.New("acct") }
@@ -308,7 +366,7 @@ func runMuxCase(c *engine.Ctx, mc muxCase, stats *muxStats) {
 		op := &muxOp{spec: sp, idx: counts[sp.Kind], release: make(chan struct{})}
 		counts[sp.Kind]++
 		if sp.Kind == "I" && !sp.Nil {
-			op.conn = &acctConn{id: i}
+			op.conn = newAcctConn(i)
 			conns = append(conns, op.conn)
 		}
 		ops = append(ops, op)
@@ -339,9 +397,9 @@ func runMuxCase(c *engine.Ctx, mc muxCase, stats *muxStats) {
 				if op.spec.Nil {
 					l.IngressConn(nil, errMuxIngress)
 				} else if op.spec.Err {
-					l.IngressConn(op.conn, errMuxIngress)
+					l.IngressConn(op.conn.wire(), errMuxIngress)
 				} else {
-					l.IngressConn(op.conn, nil)
+					l.IngressConn(op.conn.wire(), nil)
 				}
 			case "A":
 				op.retConn, op.retErr = l.Accept()
@@ -487,7 +545,7 @@ func runMuxCase(c *engine.Ctx, mc muxCase, stats *muxStats) {
 			case op.retConn != nil && (op.retErr == nil || op.retErr == errMuxIngress):
 				// a connection ingressed together with an error is handed to the caller with that error:
 				// the caller has it, so it counts as returned
-				if ac, ok := op.retConn.(*acctConn); ok {
+				if ac, ok := acctOf(op.retConn); ok {
 					ac.returned.Add(1)
 					if op.retErr != nil {
 						r.Count("connections_returned_with_their_ingress_error", 1)
@@ -627,9 +685,9 @@ func runMuxStress(c *engine.Ctx, round int, seed int64) {
 		go guard(func() {
 			<-start
 			for i := 0; i < nf; i++ {
-				cn := &acctConn{id: 1000 + i}
+				cn := newAcctConn(1000 + i)
 				select {
-				case feed.ch <- cn:
+				case feed.ch <- cn.wire():
 					feedMu.Lock()
 					feedConns = append(feedConns, cn)
 					feedMu.Unlock()
@@ -640,7 +698,7 @@ func runMuxStress(c *engine.Ctx, round int, seed int64) {
 		})
 	}
 	for i := 0; i < nIngress; i++ {
-		cn := &acctConn{id: i}
+		cn := newAcctConn(i)
 		conns = append(conns, cn)
 		wg.Add(1)
 		withErr := rng.Intn(5) == 0
@@ -651,9 +709,9 @@ func runMuxStress(c *engine.Ctx, round int, seed int64) {
 		go guard(func() {
 			<-start
 			if withErr {
-				l.IngressConn(cn, errMuxIngress)
+				l.IngressConn(cn.wire(), errMuxIngress)
 			} else {
-				l.IngressConn(cn, nil)
+				l.IngressConn(cn.wire(), nil)
 			}
 		})
 	}
@@ -669,7 +727,7 @@ func runMuxStress(c *engine.Ctx, round int, seed int64) {
 					}
 					return
 				}
-				if ac, ok := cn.(*acctConn); ok {
+				if ac, ok := acctOf(cn); ok {
 					ac.returned.Add(1)
 				} else {
 					bad.Store("Accept returned a foreign connection")
